@@ -47,7 +47,7 @@ func (cfg ckksCfg) literal() ckks.ParametersLiteral {
 // over that window (never clustered at a power of two) so that using a wrong prime in the scale
 // bookkeeping changes the decoded values far above the noise.
 func drawCKKS(r *eng.Rand, idx int, tier string) (ckksCfg, bool) {
-	logNs := []int{4, 5, 5, 6, 6, 7, 8}
+	logNs := []int{4, 5, 5, 6, 6, 7, 8, 9}
 	if tier == "thorough" {
 		logNs = []int{4, 5, 6, 7, 8, 9, 10}
 	}
@@ -66,10 +66,23 @@ func drawCKKS(r *eng.Rand, idx int, tier string) (ckksCfg, bool) {
 	if cfg.Ring == "ci" {
 		nth *= 2
 	}
-	if r.N(4) != 0 {
-		cfg.H = eng.Pick(r, n/4, 16, 8)
+	// secret: the default dense ternary secret only where the worst-case rounding bound N(1+|s|_1)/2 stays small
+	// enough for the error bound to remain below 2^-8 (logN <= 6, depth <= 3); fixed weight 8 / 16 / N/4 <= 32 otherwise
+	if cfg.LogN > 6 || cfg.Depth > 3 || r.N(3) != 0 {
+		cfg.H = eng.Pick(r, 8, 16, n/4)
+		if cfg.H > 32 {
+			cfg.H = 16
+		}
 		if cfg.H > n/2 {
 			cfg.H = n / 2
+		}
+	}
+	if cfg.Depth >= 7 && cfg.LogN > 7 {
+		cfg.LogN = 7
+		n = 1 << cfg.LogN
+		nth = uint64(2 * n)
+		if cfg.Ring == "ci" {
+			nth *= 2
 		}
 	}
 	skip := map[uint64]bool{}
@@ -77,7 +90,7 @@ func drawCKKS(r *eng.Rand, idx int, tier string) (ckksCfg, bool) {
 		// deeper chains get larger scales (the worst-case noise bound grows with the degree)
 		lo, hi := 40, 52
 		if cfg.Depth >= 4 {
-			lo = 45
+			lo = 47
 		}
 		if hi > 56-cfg.Depth {
 			hi = 56 - cfg.Depth
